@@ -203,6 +203,23 @@ def concretise(program, users=USERS, tree=INITIAL_TREE, ipv6=False, profile="def
     return out
 
 
+def from_lines(lines, users=USERS, tree=INITIAL_TREE, ipv6=False):
+    """Hand-written command lines -> concrete history (same record shape as concretise), judged against the model;
+    stops where the model no longer knows the outcome."""
+    m = Model(users, ipv6=ipv6, tree=tree)
+    out = []
+    for ln in lines:
+        verb, _, arg = ln.partition(" ")
+        cs = dict(verb=verb, arg=arg, connect=None, payload=b"", judge=True)
+        exp = m.step(verb, arg, connect="never", payload=b"")
+        if exp.get("agnostic"):
+            cs["judge"], cs["why"] = False, exp["agnostic"]
+        out.append(cs)
+        if exp.get("ends") or not cs["judge"]:
+            break
+    return out
+
+
 def classify(history):
     """Non-triviality of a history for C05: >= 2 state-dependent interactions."""
     inter = 0
